@@ -225,14 +225,15 @@ def doc_streams(maxdocs):
             yield E.stream()
             continue
         # first document: every variant x every root; later documents: a reduced variant list
-        later = [(False, None, None, False), (True, (1, 1), None, True), (True, None, TAGSETS[1], False)]
+        # later documents: no directives (a handle declared by an EARLIER document must not leak into them), %YAML, %TAG
+        later = [(False, None, None, False), (True, (1, 1), None, True), (True, None, TAGSETS[1], False), (True, None, (('!e!', 'tag:other.org,2011:'),), False)]
         for v0 in variants:
             for r0 in roots:
                 d0 = E.doc(r0, explicit=v0[0], version=v0[1], tags=v0[2], end_explicit=v0[3])
                 if n == 1:
                     yield E.stream(d0)
                     continue
-                for rest in itertools.product(itertools.product(later, roots[:5] if n == 2 else roots[:3]), repeat=n - 1):
+                for rest in itertools.product(itertools.product(later, roots if n == 2 else [roots[0], roots[2], roots[5]]), repeat=n - 1):
                     ds = [d0] + [E.doc(r, explicit=v[0], version=v[1], tags=v[2], end_explicit=v[3]) for v, r in rest]
                     yield E.stream(*ds)
 
